@@ -3,6 +3,7 @@ import PyTrie.Lemmas.FreePartial
 import PyTrie.Lemmas.FreeView
 import PyTrie.Lemmas.CacheNoDupPres
 import PyTrie.Lemmas.PruneBodiesV
+import PyTrie.Lemmas.PruneBodiesNP
 /-! # The tree-free executor (C01, C04, C06, C07 over a transcription with no tree)
 
 `Model/HexFree.lean` is `HexaryTrie.set` / `delete` / `get` as the code runs them: the trie is a root hash and a `prune`
@@ -205,5 +206,37 @@ theorem complete_after_commit (Hs : Hashing) (blankRootHash : Hash) (w : World) 
     (hcomp : Complete Hs blankRootHash (storeDb (w.batchOpSt b).store) b.trie) :
     Complete Hs blankRootHash (w.batchEnd false).2.base ((w.batchEnd false).2.tries[b.outer]!) :=
   batchEnd_complete Hs blankRootHash w b hb hi hic hop hfa hinv hcomp
+
+end PyTrie.Props.Free
+
+/-! ## … and through a block on a NON-pruning trie
+
+The batch trie of a non-pruning outer trie may buffer a delete for a node that is still referenced (its counts start empty
+over a non-empty database); `ScratchDB.__getitem__` reads through a buffered delete, so the node stays readable, with the
+right body because a buffered write of a key the wrapped database holds carries the same body (`CacheConsistent`). -/
+namespace PyTrie.Props.Free
+open PyTrie PyTrie.Hex PyTrie.HexW PyTrie.HexFree
+
+theorem np_cache_consistent_on_entry (base : Dict Bytes) (fa : Option Nat) :
+    CacheConsistent { base := base, cache := some [], failAfter := fa } := cacheConsistent_begin base fa
+
+theorem np_view_complete_batch_op (Hs : Hashing) (blankRootHash : Hash) (base0 : Dict Bytes) (T : TrieSt) (hc : Canon T.tree)
+    (key : Bytes) (val : Option Bytes) (s : OpSt) (hinv : BatchInvNP Hs blankRootHash base0 T s) (hcons : CacheConsistent s.store)
+    (hcomp : Complete Hs blankRootHash (storeDb s.store) T) (hrs : RefSound Hs T.tree (nibs key))
+    (hnc : NoClobber (storeDb s.store) (opWrites Hs T key val))
+    (hblank : isBlank (opTree Hs T key val).1 = false → Hs.hashOf (opTree Hs T key val).1 ≠ blankRootHash)
+    (T' : TrieSt) (hok : (opSetDel Hs blankRootHash T key val s).2 = .ok T') :
+    Complete Hs blankRootHash (storeDb (opSetDel Hs blankRootHash T key val s).1.store) T' ∧
+    CacheConsistent (opSetDel Hs blankRootHash T key val s).1.store :=
+  opSetDel_np_complete_view Hs blankRootHash base0 T hc key val s hinv hcons hcomp hrs hnc hblank T' hok
+
+/-- the commit of a block on a non-pruning trie pushes no deletes: the database is complete for the new root and keeps
+    every binding it had (C04 through `squash_changes`, with bodies) -/
+theorem np_complete_after_commit (Hs : Hashing) (blankRootHash : Hash) (base0 : Dict Bytes) (T : TrieSt) (s : OpSt)
+    (hinv : BatchInvNP Hs blankRootHash base0 T s) (hcons : CacheConsistent s.store) (c : Dict (Option Bytes))
+    (hcache : s.store.cache = some c) (hcomp : Complete Hs blankRootHash (storeDb s.store) T) :
+    Complete Hs blankRootHash (commitLoop false c base0 none).2.1 { T with prune := false } ∧
+    Preserved base0 (commitLoop false c base0 none).2.1 :=
+  commit_np_complete Hs blankRootHash base0 T s hinv hcons c hcache hcomp
 
 end PyTrie.Props.Free
